@@ -487,13 +487,15 @@ command) is the authenticated identity: the handlers of the versioned API pass `
 – never the anonymous constant – and `AuthInfo.actor` is the id the chain returned. -/
 theorem actor_is_identity :
     (∀ (cfg : Config) (st : SessState) (h : Header) (t : Transport) (id : String) (role : Role),
-      (authenticate cfg st h t).1 = .ok id role → (authenticate cfg st h t).1.actor = id) ∧
-    (∀ a : AuthRes, a.isOk = false → a.actor = "anonymous") ∧
+      (authenticate cfg st h t).1 = .ok id role →
+        (authenticate cfg st h t).1.actor = id ∧
+        (authenticate cfg st h t).1.auditName = "user:" ++ id) ∧
+    (∀ a : AuthRes, a.isOk = false → a.actor = "anonymous" ∧ a.auditName = "anonymous") ∧
     (∀ rt ∈ routes, Spec.areaOf rt.path = .api → ∀ c ∈ rt.ops,
       c.actor = .auth ∨ c.actor = .none) := by
   refine ⟨?_, ?_, ?_⟩
-  · intro cfg st h t id role hok; rw [hok]; rfl
-  · intro a ha; cases a <;> simp_all [AuthRes.isOk, AuthRes.actor]
+  · intro cfg st h t id role hok; rw [hok]; exact ⟨rfl, rfl⟩
+  · intro a ha; cases a <;> simp_all [AuthRes.isOk, AuthRes.actor, AuthRes.auditName]
   · have h : routes.all (fun rt => Spec.areaOf rt.path != .api ||
         rt.ops.all fun c => c.actor == .auth || c.actor == .none) = true := by
       decide +kernel
